@@ -109,13 +109,18 @@ def main():
         return {"skip": False, "I": I, "rec": rec, "responses": responses}
 
     jobs = [(label, job) for label, job in S.jobs(P, max_args=1)]
+    if C.tier == "quick":
+        # the command-action kernel does not depend on which built-in failed: one representative per call form
+        keep = ("expr:", "fun:PreludePrint/", "fun:PreludeThrow/", "method:StringLen/", "method:ListGet/", "call-other/", "userfun:Fun/")
+        jobs = [(l, j) for l, j in jobs if l.startswith(keep)]
+    C.extra["recipes"] = [l for l, _ in jobs]
     n_paths = 0
     n_states = 0
     not_enc = {}
     for label, job in jobs:
         for seq in seqs:
             try:
-                res = explore(lambda ctx: run_after_error(ctx, job, seq), max_paths=6000)
+                res = explore(lambda ctx: run_after_error(ctx, job, seq), max_paths=3000)
             except (Unsupported, UnwindExceeded) as ex:
                 not_enc[f"{label} {seq}"] = str(ex)[:140]
                 continue
